@@ -53,6 +53,7 @@ type tapeFile struct {
 
 type summary struct {
 	Summary  bool     `json:"summary"`
+	Aborted  bool     `json:"aborted,omitempty"`
 	Runs     int      `json:"runs"`
 	Pairs    []uint32 `json:"pairs"`
 	Sites    []int    `json:"sites"`
@@ -134,6 +135,7 @@ func main() {
 		fmt.Fprintln(os.Stderr, "simworld: unknown world", *world)
 		os.Exit(2)
 	}
+	hangs := 0
 	for i := 0; i < *count; i++ {
 		seed := *from + uint64(i)
 		fmt.Fprintf(os.Stderr, "RUN seed=%d\n", seed)
@@ -141,6 +143,19 @@ func main() {
 		if err := enc.Encode(res); err != nil {
 			fmt.Fprintln(os.Stderr, "simworld:", err)
 			os.Exit(2)
+		}
+		// a tree in which library calls do not terminate makes every run
+		// expensive: a handful of such runs is enough evidence
+		for _, v := range res.Violations {
+			if len(v.Sig) > 5 && v.Sig[:5] == "hang:" {
+				hangs++
+				break
+			}
+		}
+		if hangs >= 5 {
+			fmt.Fprintf(os.Stderr, "END aborted after %d runs: %d runs hit the step cap\n", i+1, hangs)
+			enc.Encode(summary{Summary: true, Runs: i + 1, Aborted: true, Pairs: simrt.Pairs(), Sites: simrt.SitesHit(), Counters: simrt.CounterNames()})
+			return
 		}
 	}
 	fmt.Fprintf(os.Stderr, "END\n")
